@@ -279,7 +279,15 @@ def entries_for(p):
 
 def whole_bundle(e, cfg):
     """the entry point parses the BUNDLE around the probe as a whole (compare with parse(bundle)["objects"][0])"""
-    return cfg.get("wrap") == "bundlefile" or (e in TAXII_SINK_ENTRIES and cfg.get("wrap") == "bundle")
+    return cfg.get("wrap") in ("bundlefile", "wbundle", "wbundle1") or (e in TAXII_SINK_ENTRIES and cfg.get("wrap") == "bundle")
+
+
+def bundle_fn(cfg):
+    return "bundlefile1" if cfg.get("wrap") == "wbundle1" else "bundlefile"
+
+
+def model_key(e, cfg):
+    return (e, json.dumps({k: v for k, v in cfg.items() if k not in ("wrap", "form")}, sort_keys=True))
 
 
 def outcomes_equal(a, b):
@@ -626,6 +634,25 @@ def check(run):
                         c2 = dict(cfg)
                         c2["wrap"] = w
                         plan.append((pi, e, c2))
+                # the same call in its other public argument forms
+                if "allow_custom" not in cfg and "interoperability" not in cfg and (run.tier == "thorough" or pi % 2 == 0 or p["variant"] == "witness"):
+                    if e in ("parsing.parse", "environment.Environment.parse", "parsing.parse_observable"):
+                        forms = ("str", "bytes", "file", "object", "positional")
+                    elif e == "parsing.dict_to_stix2":
+                        forms = ("object", "positional")
+                    elif e in ("memory.MemoryStore.add", "memory.MemorySink.add", "filesystem.FileSystemSink.add",
+                               "filesystem.FileSystemSource.get", "filesystem.FileSystemSource.query", "filesystem.FileSystemStore.add"):
+                        forms = ("positional", "relpath") if e.startswith("filesystem.") else ("positional",)
+                    else:
+                        forms = ()
+                    for fm in forms:
+                        if fm == "positional" and e == "environment.Environment.parse":
+                            continue
+                        plan.append((pi, e, dict(cfg, form=fm)))
+                if e in FS_SINK_ENTRIES and p["variant"] in ("witness", "base", "zero-uuid", "v1-uuid", "no-spec-version", "spec-version-added") \
+                        and "allow_custom" not in cfg:
+                    for wr in ("wbundle", "wbundle1", "str"):
+                        plan.append((pi, e, dict(cfg, wrap=wr)))
                 if run.tier != "thorough" and "version" not in cfg and e in FS_SRC_ENTRIES:
                     continue        # quick tier: the file layouts below only with a version named
                 if e in FS_SRC_ENTRIES and p["variant"] in ("witness", "base", "zero-uuid", "v1-uuid") and "allow_custom" not in cfg:
@@ -698,7 +725,7 @@ def check(run):
     _tick(run, 'plan')
     eff = {}
     if model_ok:
-        keys = sorted({(e, json.dumps({k: v for k, v in cfg.items() if k != "wrap"}, sort_keys=True)) for _, e, cfg in plan})
+        keys = sorted({model_key(e, cfg) for _, e, cfg in plan})
         try:
             lines = common.coq_eval_lines("c14e", HEADER, ["effective Tg %s %s" % (common.coq_str(e), cargs_of(json.loads(c)))
                                                            for e, c in keys], shard=300)
@@ -722,6 +749,8 @@ def check(run):
         case = {"op": "probe", "data": p["data"], "entries": [[e, cfg] for e, cfg in by_probe[pi]], "direct": direct}
         if any(whole_bundle(e, cfg) for e, cfg in by_probe[pi]):
             case["direct_bundle"] = [[ac, io_, v] for ac, io_, v in DIRECT_GRID]
+        if any(cfg.get("wrap") == "wbundle1" for e, cfg in by_probe[pi]):
+            case["direct_bundle1"] = [[ac, io_, v] for ac, io_, v in DIRECT_GRID]
         cases.append(case)
     wb_idx = [k for k, pi in enumerate(order) if probes[pi].get("wb")]
     tx_idx = [k for k, pi in enumerate(order) if probes[pi].get("taxii")]
@@ -751,21 +780,31 @@ def check(run):
         direct = {(fn, ac, io_, v): o for (fn, ac, io_, v), o in zip(map(tuple, c["direct"]), r["direct"])}
         for (ac, io_, v), o in zip(map(tuple, c.get("direct_bundle", [])), r.get("direct_bundle", [])):
             direct[("bundlefile", ac, io_, v)] = o
+        for (ac, io_, v), o in zip(map(tuple, c.get("direct_bundle1", [])), r.get("direct_bundle1", [])):
+            direct[("bundlefile1", ac, io_, v)] = o
         distinct = {json.dumps(o) for (fn, *_), o in direct.items() if fn == "parse"}
         nontrivial = len(distinct) > 1
         for (e, cfg), out, own in zip(by_probe[pi], r["entries"], r["own"]):
             run.count({"e": e, "cfg": cfg, "d": p["data"]}, nontrivial=nontrivial)
             v = cfg.get("version")
             fn_own, ac_own, io_own = own
+            if out[0] == "skip":
+                continue
             if whole_bundle(e, cfg):
-                fn_own = "bundlefile"
+                fn_own = bundle_fn(cfg)
+            if cfg.get("form") == "object":
+                # an OBJECT handed over: re-reading dict(object) is not the same input as the dictionary it was built from
+                # (embedded library objects, emptied containers), so a refusal is not compared; an answer is, by its class
+                if out[0] != "ok":
+                    continue
+                out = [out[0], out[1], None, out[3]]
             unv = direct.get((fn_own, ac_own, io_own, None))
             known_cls = None
             if e.startswith("taxii.") and e.endswith(".all_versions") and v is not None:
                 # Run-time variant: the generated table says this entry point ALSO reaches the parser without the version
                 # (self.query(..) called without version=).  Then whatever it does differently from a direct parse is that
                 # defect: the unversioned first parse raised, or succeeded and its RESULT is what gets parsed with the version.
-                ekey = (e, json.dumps({k: x for k, x in cfg.items() if k != "wrap"}, sort_keys=True))
+                ekey = model_key(e, cfg)
                 tr = eff.get(ekey) or []
                 if any(t[3] == ("v", None) for t in tr) or (not tr and unv is not None and (
                         (unv[0] == "exc" and outcomes_equal(out, unv)) or (unv[0] == "ok" and out[0] == "ok"))):
@@ -805,7 +844,7 @@ def check(run):
             if model_ok and not (e in TAXII_SINK_ENTRIES and (
                     (cfg.get("wrap") in (None, "list") and not md["taxii_sink_dict_parses"])
                     or (direct.get((fn_own, ac_own, io_own, v)) or ["?"])[0] == "ok")):
-                key = (e, json.dumps({k: x for k, x in cfg.items() if k != "wrap"}, sort_keys=True))
+                key = model_key(e, cfg)
                 triples = eff.get(key)
                 if triples is None:
                     continue
@@ -818,7 +857,7 @@ def check(run):
                 for fn, ac, io_, vv in triples:
                     f = "parse_observable" if fn == "parsing.parse_observable" else "parse"
                     if whole_bundle(e, cfg):
-                        f = "bundlefile"
+                        f = bundle_fn(cfg)
                     if ac[0] == "?":
                         unknown = True
                     a = ac_own if ac[0] == "?" else truthy(ac[1])
@@ -1245,20 +1284,31 @@ def replay(payload):
         e, cfg, d = r["entry"], r["cfg"], r["data"]
         direct = [["parse", ac, io_, v] for ac, io_, v in DIRECT_GRID] + [["parse_observable", ac, io_, v] for ac, io_, v in DIRECT_GRID]
         res = common.run_impl("c14_impl", [{"op": "probe", "data": d, "entries": [[e, cfg]], "direct": direct,
-                                            "direct_bundle": [list(x) for x in DIRECT_GRID]}], procs=1,
+                                            "direct_bundle": [list(x) for x in DIRECT_GRID],
+                                            "direct_bundle1": [list(x) for x in DIRECT_GRID]}], procs=1,
                               args=(("taxii",) if e.startswith("taxii.") else ("workbench",) if e.startswith("workbench.") else ()))[0]
         out, own = res["entries"][0], res["own"][0]
         table = {tuple(k): o for k, o in zip(direct, res["direct"])}
         for k, o in zip(DIRECT_GRID, res["direct_bundle"]):
             table[("bundlefile",) + tuple(k)] = o
+        for k, o in zip(DIRECT_GRID, res["direct_bundle1"]):
+            table[("bundlefile1",) + tuple(k)] = o
         v = cfg.get("version")
-        fn = "bundlefile" if whole_bundle(e, cfg) else own[0]
+        fn = bundle_fn(cfg) if whole_bundle(e, cfg) else own[0]
+        if out[0] == "skip":
+            print("the input can no longer be built as an object: nothing to replay")
+            return 0
+        if cfg.get("form") == "object":
+            if out[0] != "ok":
+                print("the object form was refused (%s): not compared" % short(out))
+                return 0
+            out = [out[0], out[1], None, out[3]]
         want = table[(fn, own[1], own[2], v)]
         print("replay %s(%s) with %s" % (e, json.dumps(d)[:200], cfg))
         print("  entry point : %s%s" % (short(out), "" if out[-1] is None or out[0] not in ("ok", "exc") else "  (class registered for %s)" % out[-1]))
         print("  direct %s(.., allow_custom=%s, interoperability=%s, version=%r): %s" % (fn, own[1], own[2], v, short(want)))
         bad = v is not None and not outcomes_equal(out, want)
-        if v is not None and fn != "bundlefile" and out[0] in ("ok", "exc") and out[-1] is not None and v not in out[-1]:
+        if v is not None and not fn.startswith("bundlefile") and out[0] in ("ok", "exc") and out[-1] is not None and v not in out[-1]:
             print("  the content was interpreted as version %s, not the version named (%s)" % (out[-1], v))
             bad = True
         if bad:
